@@ -9,6 +9,8 @@ from . import rules_mk as mk
 from . import rules_pai as pa
 from . import rules_fx as fx
 from . import rules_op as op
+from . import rules_cv as cv
+from . import rules_sn as sn
 
 
 def R(fn, **kw):
@@ -20,12 +22,10 @@ PROPS = {}
 # Properties not claimed: no sound structural clause in reach of static analysis (DESIGN.md section 5).
 NOT_APPLICABLE = {
     'C05': 'purely numerical error bounds of secure floats over runtime values; no structural clause beyond those decided under C03/C19',
-    'C06': 'value preservation of conversions is arithmetic over runtime values; its structural clauses (same mask in both fields, k-slack) are decided under C08(PC9)/C18',
     'C21': 'number-theoretic correctness of square-root algorithms over runtime values; any static rule would freeze a formula',
     'C24': 'correctness of irreducibility tests/search is a statement about polynomial factorisations; needs evaluation, not code shape',
     'C25': 'mathematical correctness of number-theory helpers over runtime integers; needs evaluation against an oracle',
     'C27': 'group laws and curve formulas over runtime values; algebraic identities are not decidable by code-shape rules',
-    'C29': 'input/output relation of comparator networks (0-1 principle) requires evaluating the network: a different technique family',
     'C30': 'input/output relations of bit-level circuits (carry networks, prefix search) require enumeration/evaluation',
     'C31': 'agreement of operation histories with Python lists is a relation over runtime values',
     'C32': 'agreement with functools/itertools and logarithmic depth are properties of computed results / recursion over runtime lengths',
@@ -309,12 +309,15 @@ PROPS['C03'] = {
 PROPS['C02'] = {
     'rules': [R(fx.rule_FX3), R(pa.rule_SS1, scope=['mul', 'np_multiply', 'in_prod', 'prod', 'schur_prod', 'scalar_mul', 'matrix_prod', '_cpx_mul', 'np_matmul',
                                                       'np_outer', 'np_convolve', 'gauss', 'trunc', 'np_trunc']),
-              R(pa.rule_MK2, scope=['trunc', 'np_trunc']), R(pa.rule_MK5), R(fx.rule_FX1), R(sg.rule_TC1)],
-    'floors': {'FX3': 15, 'SS1': 25, 'MK2': 2, 'MK5': 6, 'FX1': 60, 'TC1': 10},
+              R(pa.rule_MK2, scope=['trunc', 'np_trunc']), R(pa.rule_MK5), R(fx.rule_FX1), R(sg.rule_TC1),
+              R(fx.rule_SC1, scope=['_norm', '_rec', 'div', 'np_divide', 'reciprocal', 'np_reciprocal', 'mul', 'np_multiply', 'sincos', 'pow', 'np_pow', 'trunc', 'np_trunc'])],
+    'floors': {'FX3': 15, 'SS1': 25, 'MK2': 2, 'MK5': 6, 'FX1': 60, 'TC1': 10, 'SC1': 2},
     'explanation': 'Scale clause only: every product of two scale-f values is brought back to scale f exactly once -- by the exact shift when a factor '
                    'is flagged integral, by probabilistic truncation otherwise, removing the same number of bits on both paths (FX3); the product is '
                    'degree-reduced before it is truncated (SS1); the truncation mask has k bits of slack above the l-bit value (MK2), which is what '
-                   'keeps the rounding error within one unit; the flags that choose the path are sound (FX1).',
+                   'keeps the rounding error within one unit; the flags that choose the path are sound (FX1); a public power-of-two factor whose exponent depends on '
+                   'the bit length l is at least one unit 2^-f for every type with l >= 2f, otherwise it is converted to 0 and the normalised operand of '
+                   'division / reciprocal vanishes (SC1: a known finding for l > 2f+1, see known_findings.json).',
     'assumptions': ['numeric error bounds of division, sincos and powers are not decided'],
     'level': 'Static scale/flag analysis of the fixed-point product coroutines. Decides the structural part of "within one unit": exactly one scaling '
              'step of the right size per product. Numeric error bounds are not claimed.',
@@ -386,13 +389,14 @@ PROPS['C28'] = {
     'level': 'Static convention analysis of mpyc.secgroups -- exactly the recombination trick the single-party suite cannot exercise.',
 }
 PROPS['C37'] = {
-    'rules': [R(sg.rule_TC1), R(sg.rule_SG1), R(sg.rule_SG2), R(pc.rule_PC1), R(pa.rule_SS1), R(pa.rule_NL1), R(ss.rule_SS3), R(ss.rule_SS7), R(ss.rule_PR1), R(fx.rule_FX1), R(fx.rule_FX3), R(op.rule_OP6)],
-    'floors': {'TC1': 10, 'SG1': 10, 'SG2': 1, 'PC1': 40, 'SS1': 60, 'NL1': 25, 'SS3': 9, 'SS7': 8, 'PR1': 12, 'FX1': 60, 'FX3': 15, 'OP6': 14},
+    'rules': [R(sg.rule_TC1), R(sg.rule_SG1), R(sg.rule_SG2), R(pc.rule_PC1), R(pa.rule_SS1), R(pa.rule_NL1), R(ss.rule_SS3), R(ss.rule_SS7), R(ss.rule_PR1), R(fx.rule_FX1), R(fx.rule_FX3), R(op.rule_OP6), R(sn.rule_SN1), R(sn.rule_SN2), R(sn.rule_SN3)],
+    'floors': {'TC1': 10, 'SG1': 10, 'SG2': 1, 'PC1': 40, 'SS1': 60, 'NL1': 25, 'SS3': 9, 'SS7': 8, 'PR1': 12, 'FX1': 60, 'FX3': 15, 'OP6': 14, 'SN1': 6, 'SN2': 2, 'SN3': 3},
     'explanation': 'Sibling and plumbing clauses for code the suite cannot even import (no numpy): array coroutines agree with their scalar siblings on '
                    'mask bounds (as linear forms), opening thresholds, option/field-size case splits, PRSS calls and head-room (SG1); a type that is an '
                    'array type is never tested against a scalar secure class (TC1); integral= is passed to polymorphic constructors only under a '
                    'fixed-point guard (SG2); a NumPy ufunc applied to (plain, secure) operands is delegated in reflected form -- mirrored comparison or '
-                   '__r<op>__ method, exchanged operands only for symmetric operators (OP6); the np_* coroutines satisfy the pc, degree, linearity and flag rules (PC1, SS1, NL1, FX1, FX3); array '
+                   '__r<op>__ method, exchanged operands only for symmetric operators (OP6); np_sort applies the comparator schedule of _sort, exchanges pairs in '
+                   'ascending orientation and works on a copy (SN1-SN3); the np_* coroutines satisfy the pc, degree, linearity and flag rules (PC1, SS1, NL1, FX1, FX3); array '
                    'sharing, recombination and PRSS agree with the list versions (SS3, SS7, PR1).',
     'assumptions': ['numpy semantics of the array operations (broadcasting, matmul) are as documented'],
     'level': 'Static sibling-agreement and typestate analysis of the np_* half of the runtime. Found three genuine defects (np_roll without pc, '
@@ -408,4 +412,41 @@ PROPS['C39'] = {
                    'combinations, and _pfield compares the prime field with the number of parties (CF2).',
     'assumptions': ['interpreter is not run with -O (the threshold guard is an assert): interpreter flags are outside the property\'s quantifier'],
     'level': 'Static guard/dominance analysis with linear-inequality normalisation. Decides that every configuration path reaches the size guards.',
+}
+
+
+PROPS['C06'] = {
+    'rules': [R(cv.rule_CV1), R(cv.rule_CV2), R(cv.rule_CV3), R(cv.rule_CV4), R(pa.rule_MK2, scope=['_convert']), R(pa.rule_MK5),
+              R(pc.rule_PC9, scope=['Runtime._convert']), R(pc.rule_PC1, scope=['Runtime._convert', 'Runtime.convert'])],
+    'floors': {'CV1': 3, 'CV2': 2, 'CV3': 3, 'CV4': 2, 'MK2': 1, 'MK5': 5, 'PC9': 1, 'PC1': 1},
+    'explanation': 'Structural clauses of the masked conversion Runtime.convert/_convert, each a necessary condition of "the converted value equals the '
+                   'source value": one random mask is shared in BOTH fields -- the two PRSS calls differ in the field only (same PRFs, one common input, '
+                   'same count), and without PRSS the senders wrap the same drawn integers in both fields (CV1); what is added before the opening '
+                   '(offset, source-field share of the mask) is exactly what is removed after it (target-field share, the same offset), element by element '
+                   '(CV2); the scale difference d = f_target - f_source is compensated by a truncation by -d before the opening exactly when d < 0 and by '
+                   'a left shift by d after it only when d > 0 (CV3); field-to-field conversion goes through a secure integer type wide enough for both '
+                   'orders (CV4); the mask exceeds the converted range by k bits and is the sum of bound//contributions sized terms (MK2, MK5); the '
+                   'PRSS input is fresh and common and the coroutine owns its program counter (PC9, PC1).',
+    'assumptions': ['converted values fit the target type (the property\'s precondition)',
+                    'the modular identities behind "open x + r in the source field, subtract r in the target field" are not re-derived: only their plumbing is decided'],
+    'level': 'Static pairing/provenance analysis of the conversion coroutine. Decides that the mask, the offset and the scale are applied and removed '
+             'consistently in the two fields; does not evaluate conversions.',
+}
+
+
+PROPS['C29'] = {
+    'rules': [R(sn.rule_SN1), R(sn.rule_SN2), R(sn.rule_SN3), R(sn.rule_SN4), R(sn.rule_SN5), R(sn.rule_SN6)],
+    'floors': {'SN1': 6, 'SN2': 2, 'SN3': 3, 'SN4': 10, 'SN5': 8, 'SN6': 3},
+    'explanation': 'Structural clauses of sorting and selection. (SN2) every compare-exchange of _sort / np_sort writes exactly the two positions it read, the '
+                   'smaller element to the lower index -- otherwise the output is not a permutation of the input, or not ascending; (SN1) the list and the '
+                   'array implementation apply one and the same comparator schedule (initialisation, both loops, index predicate i & p == r over '
+                   'range(n - d), partner i + d, updates of d, q, r, p), as np_sort promises; (SN3) np_sort and sorted() act on a copy of their argument and '
+                   'the reverse flag reverses the ascending result; (SN4) min, max, argmin, argmax split the input into two halves covering it once, compare '
+                   'the two half results, select value and index under the same condition with the orientation that yields the extreme, offset the index of '
+                   'the second half, and resolve ties in favour of the first half (first occurrence); (SN5) every function taking a `key` compares elements through key(..) only; (SN6) min_max moves the smaller element of each pair (i, n-1-i) to position i and then takes the minimum over a prefix and the maximum over a suffix that contain every position where it can be, for every length (slice bounds evaluated for n = 1..11). NOT decided: that the schedule itself is a sorting '
+                   'network (0-1 principle over all inputs) -- that needs evaluation of the network, a different technique.',
+    'assumptions': ['Batcher\'s merge-exchange schedule (Knuth 5.2.2M) as written in _sort is a sorting network for every n: not decided here',
+                    'the secure comparison < is exact (C01/C02)'],
+    'level': 'Static sibling cross-check and orientation analysis of the compare-exchange / selection steps. Decides necessary conditions; the 0-1 principle '
+             'over all 2^n inputs is out of reach of static analysis.',
 }
